@@ -12,6 +12,7 @@
 //
 //   ports (declaration order):  R<a>       read port, address pin <a>
 //                               E<a>       read port built by hand with an `enable` pin (pp=0 only)
+//                               N<a>       read port whose L read-latency registers sit under ENIF(<own pin>): read enable
 //                               W<a>:<src> write port under IF(we): address pin <a>, own enable + data pin
 //                               A<a>:<src> write port without IF (always enabled)
 //                               V<a>:<src> write port with wrEnable (IF) and an additional `enable` pin (pp=0 only)
@@ -34,6 +35,10 @@
 #include <gatery/hlim/supportNodes/Node_MemPort.h>
 #include <gatery/hlim/supportNodes/Node_Memory.h>
 #include <map>
+#include <functional>
+#include <algorithm>
+#include <gatery/hlim/supportNodes/Node_External.h>
+#include <gatery/hlim/NodeGroup.h>
 
 using namespace gtry;
 
@@ -172,17 +177,25 @@ void runCase(const Case &cs, std::ostream &out)
 	struct WrPins { Bit en; UInt din; Bit en2; bool hasEn = false, hasEn2 = false; };
 	std::vector<WrPins> wrPins;
 	std::vector<Bit> rdEnPins;
+	std::vector<bool> rdEnIsReg; // the pin gates the read-latency registers (ENIF) instead of the port
 	std::vector<UInt> rdAsync, rdOut;
 
 	for (size_t pi = 0; pi < ports.size(); pi++) {
 		auto &p = ports[pi];
-		if (p.kind == 'R' || p.kind == 'E') {
+		if (p.kind == 'R' || p.kind == 'E' || p.kind == 'N') {
 			UInt v;
-			if (p.kind == 'R') {
+			Bit regEn;
+			if (p.kind == 'N') {
+				regEn = pinIn().setName("g" + std::to_string(rdEnPins.size()));
+				rdEnPins.push_back(regEn);
+				rdEnIsReg.push_back(true);
+			}
+			if (p.kind == 'R' || p.kind == 'N') {
 				v = mem[addrPins[p.addrPin]];
 			} else {
 				Bit en = pinIn().setName("g" + std::to_string(rdEnPins.size()));
 				rdEnPins.push_back(en);
+				rdEnIsReg.push_back(false);
 				auto *rp = DesignScope::createNode<hlim::Node_MemPort>(width);
 				rp->connectMemory(mem.node());
 				rp->connectEnable(en.readPort());
@@ -192,7 +205,10 @@ void runCase(const Case &cs, std::ostream &out)
 			}
 			rdAsync.push_back(v);
 			UInt o = v;
-			for (size_t i = 0; i < L; i++) o = reg(o, { .allowRetimingBackward = true });
+			for (size_t i = 0; i < L; i++) {
+				if (p.kind == 'N') { ENIF (regEn) o = reg(o, { .allowRetimingBackward = true }); }
+				else o = reg(o, { .allowRetimingBackward = true });
+			}
 			rdOut.push_back(o);
 		} else {
 			WrPins w;
@@ -223,6 +239,37 @@ void runCase(const Case &cs, std::ostream &out)
 	for (size_t i = 0; i < rdOut.size(); i++) pinOut(rdOut[i]).setName("q" + std::to_string(i));
 
 	if (pp) design.postprocess();
+
+	// which mapping functions / patterns fired: external primitives by type name, memtools depth-mux splits
+	// ("cascade_rdData" hooks), width splits ("concatenated_rdData"), sub memories ("memory_split_<i>" groups),
+	// remaining generic memories, "primitive" property of the memory entities
+	std::string mapInfo = "-";
+	if (pp) {
+		std::map<std::string, size_t> cnt;
+		for (auto &n : design.getCircuit().getNodes()) {
+			if (auto *ext = dynamic_cast<hlim::Node_External*>(n.get())) cnt["prim:" + ext->getTypeName()]++;
+			else if (dynamic_cast<hlim::Node_Memory*>(n.get())) cnt["node_memory"]++;
+			else if (dynamic_cast<hlim::Node_Signal*>(n.get())) {
+				if (n->getName() == "cascade_rdData") cnt["depthMuxSplit"]++;
+				if (n->getName() == "concatenated_rdData") cnt["widthSplit"]++;
+			}
+		}
+		std::function<void(hlim::NodeGroup*)> walk = [&](hlim::NodeGroup *g) {
+			if (g->getName().rfind("memory_split_", 0) == 0) cnt["subMemory"]++;
+			{
+				std::string v;
+				try { v = g->properties()["primitive"].as<std::string>(); } catch (...) { v.clear(); }
+				if (v.empty()) v = "none";
+				for (auto &ch : v) if (ch == '"' || ch == ' ' || ch == ',') ch = '_';
+				if (v != "none") cnt["prop:" + v]++;
+			}
+			for (auto &c : g->getChildren()) walk(c.get());
+		};
+		walk(design.getCircuit().getRootNodeGroup());
+		mapInfo.clear();
+		for (auto &kv : cnt) mapInfo += (mapInfo.empty() ? "" : ",") + kv.first + ":" + std::to_string(kv.second);
+		if (mapInfo.empty()) mapInfo = "-";
+	}
 
 	// physical write ports of the user's memory after postprocessing: their address / enable drivers are
 	// logged so that the check can see whether write collisions were resolved by logic (hardware has
@@ -262,6 +309,18 @@ void runCase(const Case &cs, std::ostream &out)
 		uint64_t amax = (1ull << abits);
 		size_t phaseLen = std::max<size_t>(4, ncyc / 5);
 		uint64_t walk = rng.below(depth);
+		// "alt": a sparse set of interesting addresses (around the halves / quarters / primitive boundaries, the end of
+		// the memory, out-of-range aliases); consecutive accesses of a pin go to different quarters of the address space
+		std::vector<uint64_t> altSet;
+		std::vector<uint64_t> lastQuarter(nAddr, 99);
+		if (stimKind == "alt") {
+			uint64_t h = amax / 2, q = std::max<uint64_t>(1, amax / 4);
+			auto add = [&](uint64_t a) { if (a < amax && std::find(altSet.begin(), altSet.end(), a) == altSet.end()) altSet.push_back(a); };
+			for (uint64_t base : { (uint64_t)0, q, h, 3 * q, (uint64_t)depth, amax }) for (int d = -2; d <= 1; d++) if ((int64_t)base + d >= 0) add(base + d);
+			for (uint64_t k = 1024; k < amax; k *= 2) { add(k - 1); add(k); add(h + k); add(h + k + 1); add(depth > k ? depth - k : 0); }
+			for (int i = 0; i < 12; i++) add(rng.below(depth));
+			for (int i = 0; i < 4 && depth < amax; i++) add(depth + rng.below(amax - depth));
+		}
 		for (size_t t = 0; t < ncyc; t++) {
 			std::string kind = stimKind;
 			if (kind == "mix") { static const char *ks[] = { "rand", "hot", "b2b", "oor", "rand" }; kind = ks[(t / phaseLen) % 5]; }
@@ -275,12 +334,17 @@ void runCase(const Case &cs, std::ostream &out)
 				else if (kind == "hot") a = rng.below(4) ? hot[rng.below(2)] : rng.below(depth);
 				else if (kind == "b2b") a = rng.below(4) ? walk : rng.below(depth);
 				else if (kind == "same") a = common;
+				else if (kind == "alt") {
+					uint64_t q = std::max<uint64_t>(1, amax / 4);
+					for (int tries = 0; tries < 16; tries++) { a = altSet[rng.below(altSet.size())]; if (a / q != lastQuarter[i]) break; }
+					lastQuarter[i] = a / q;
+				}
 				else /* oor */ a = (depth < amax && rng.below(2)) ? depth + rng.below(amax - depth) : rng.below(amax);
 				std::string b = numBits(a, abits);
 				if (xs) for (auto &c : b) if (rng.below(10) == 0) c = 'X';
 				s.addr.push_back(b);
 			}
-			for (size_t i = 0; i < rdEnPins.size(); i++) s.gen.push_back(xs && rng.below(10) == 0 ? "X" : (rng.below(4) ? "1" : "0"));
+			for (size_t i = 0; i < rdEnPins.size(); i++) s.gen.push_back(xs && !rdEnIsReg[i] && rng.below(10) == 0 ? "X" : (rng.below(4) ? "1" : "0"));
 			for (size_t i = 0; i < wrPins.size(); i++) {
 				std::array<std::string, 3> w;
 				w[0] = wrPins[i].hasEn ? (rng.below(8) < (kind == "hot" || kind == "b2b" ? 6 : 4) ? "1" : "0") : "1";
@@ -293,8 +357,14 @@ void runCase(const Case &cs, std::ostream &out)
 		}
 	}
 
-	out << "M " << cs.line << " | L=" << L << " abits=" << abits << " words=";
-	for (size_t i = 0; i < depth; i++) out << (i ? "," : "") << initWords[i];
+	out << "M " << cs.line << " | L=" << L << " abits=" << abits << " map=" << mapInfo << " words=";
+	for (size_t i = 0; i < depth;) {   // run-length: <n>*<word>
+		size_t j = i; while (j < depth && initWords[j] == initWords[i]) j++;
+		out << (i ? "," : "");
+		if (j - i > 1) out << (j - i) << "*";
+		out << initWords[i];
+		i = j;
+	}
 	out << "\n";
 
 	// ------------------------------------------------------------------ simulation
